@@ -1,6 +1,7 @@
 import Driver.Common
 import Driver.C06
 import MocVerif.Model.Cells
+import MocVerif.Model.UniqIter
 
 namespace Drv
 open Moc
@@ -41,6 +42,11 @@ def stepC05 (toks : List String) : Option String :=
   | ["r_nuniq", w, d, l] => do
     let w ← w.toNat?; let d ← d.toNat?; let l ← parseRngs l
     pure (showNats (((cellsOf Params.hpx w d l).map fun c => uniqHpx c.1 c.2).mergeSort))
+  | ["r_nuniq_it", w, _d, l] => do
+    -- the transliterated iterator (`UniqIter.run`): the NUNIQ numbers it emits, sorted
+    let w ← w.toNat?; let l ← parseRngs l
+    let J := Params.hpx.maxDepth w
+    pure (showNats ((UniqIter.uniqValues J (UniqIter.run 2 J l)).mergeSort))
   | ["u_hpx", d, i] => do let d ← d.toNat?; let i ← i.toNat?; pure (toString (uniqHpx d i))
   | ["u_fromhpx", u] => do let u ← u.toNat?; let c := fromUniqHpx u; pure s!"{c.1}/{c.2}"
   | ["u_gen", q, d, i] => do let q ← qtyOf q; let d ← d.toNat?; let i ← i.toNat?; pure (toString (toUniqGen q d i))
